@@ -208,7 +208,54 @@ pub fn record(args: &[String]) -> i32 {
         run += 1;
         record_run(&mut tr, run, &worlds[wi], &mut toks[wi], mode_of(k), &text, json!({}));
     }
+    // the caller's reusable result list (Python binding, command-line tool): results are swapped into ONE MorphemeList per
+    // tokenizer; inputs that are or become empty follow non-empty ones
+    for (wi, w) in worlds.iter().enumerate() {
+        let mut tok = StatefulTokenizer::new(w.dict.clone(), Mode::C);
+        let mut list = MorphemeList::empty(w.dict.clone());
+        let seq = ["東京都に行った", "京都。東京", "", "東京都", "", "", "(あ)", " ", "", "ｶﾞｷﾞ", "", "1,234.5円", "京都", ""];
+        for (k, s) in seq.iter().enumerate() {
+            run += 1;
+            record_run_reuse(&mut tr, run, w, &mut tok, &mut list, mode_of(k + wi), s);
+        }
+    }
     let n = tr.finish();
     println!("{}", json!({"events": n, "runs": run}));
     0
+}
+
+/// Like record_run, but the result is collected into the caller's reused list (MorphemeList::collect_results).
+pub fn record_run_reuse(tr: &mut Trace, run: usize, world: &World, tok: &mut StatefulTokenizer<Rc<JapaneseDictionary>>, list: &mut MorphemeList<Rc<JapaneseDictionary>>, mode: Mode, text: &str) {
+    tr.emit(json!({"ev": "run", "run": run, "world": world.name, "mode": mode_idx(mode), "text": cps(text), "nbytes": text.len(), "meta": world.meta, "extra": {"reused_list": true}}));
+    sudachi::verif::install();
+    tok.set_mode(mode);
+    let res = catch(std::panic::AssertUnwindSafe(|| {
+        tok.reset().push_str(text);
+        tok.do_tokenize()
+    }));
+    let events = sudachi::verif::take();
+    sudachi::verif::uninstall();
+    for mut e in events {
+        e["run"] = json!(run);
+        tr.emit(e);
+    }
+    match res {
+        Err(msg) => {
+            tr.emit(json!({"ev": "result", "run": run, "res": "panic", "msg": msg}));
+            *tok = StatefulTokenizer::new(world.dict.clone(), mode);
+        }
+        Ok(Err(e)) => tr.emit(json!({"ev": "result", "run": run, "res": "err", "msg": format!("{:?}", e)})),
+        Ok(Ok(())) => {
+            let r = catch(std::panic::AssertUnwindSafe(|| list.collect_results(tok).map(|_| morphemes_json(list, &[]))));
+            match r {
+                Ok(Ok(ms)) => tr.emit(json!({"ev": "result", "run": run, "res": "ok", "morphemes": ms, "reused_list": true})),
+                Ok(Err(e)) => tr.emit(json!({"ev": "result", "run": run, "res": "err", "msg": format!("{:?}", e)})),
+                Err(msg) => {
+                    tr.emit(json!({"ev": "result", "run": run, "res": "panic", "msg": msg, "where": "accessors"}));
+                    *tok = StatefulTokenizer::new(world.dict.clone(), mode);
+                    *list = MorphemeList::empty(world.dict.clone());
+                }
+            }
+        }
+    }
 }
